@@ -28,6 +28,10 @@ def gen_cases(tier, seed):
     for i in range(260 if tier == 'quick' else 6000):
         cases.append({'kind': 'threads', 'm': rng.choice([1, 2, 3, 4]), 'n': rng.choice([1, 2, 2, 3, 4]), 'bound': rng.choice([0, 1, 2, 3]),
                       'rounds': rng.choice([2, 3, 5]), 'items': rng.choice([0, 1, 5, 30]), 'p': rng.choice([0.05, 0.2, 0.4]), 'seed': rng.randrange(1 << 30)})
+    # the other consumers begin the next round while one consumer is still inside renew()
+    for i in range(40 if tier == 'quick' else 800):
+        cases.append({'kind': 'threads', 'm': rng.choice([1, 1, 2, 3]), 'n': rng.choice([2, 2, 3, 4]), 'bound': rng.choice([0, 1, 3]), 'rounds': rng.choice([3, 5]),
+                      'items': rng.choice([1, 5, 12]), 'p': rng.choice([0.05, 0.2]), 'overlap': True, 'seed': rng.randrange(1 << 30)})
     # a stop event is attached (never set): get/put poll every second; suppliers stall for about that interval
     for i in range(14 if tier == 'quick' else 200):
         cases.append({'kind': 'threads', 'm': rng.choice([1, 2]), 'n': rng.choice([1, 2, 3]), 'bound': rng.choice([0, 1]), 'rounds': 2, 'items': rng.choice([2, 6]),
@@ -58,6 +62,8 @@ def run_threads(case):
     received = [[[] for _ in range(n)] for _ in range(rounds)]
     errors = []
     bar = threading.Barrier(m + n)
+    overlap = bool(case.get('overlap')) and n >= 2
+    bar_top = threading.Barrier(m + 1)  # overlap mode, rounds > 0: suppliers + the renewing consumer only
     renew_info = []
 
     falsy_rounds = {(r, s) for r in range(rounds) for s in range(min(m, 3)) if rng.random() < 0.3}
@@ -71,7 +77,10 @@ def run_threads(case):
     def supplier(s):
         try:
             for r in range(rounds):
-                bar.wait(BOUND)
+                if overlap and r > 0:
+                    bar_top.wait(BOUND)
+                else:
+                    bar.wait(BOUND)
                 for i in range(counts[r][s]):
                     if case.get('supplier_stall') and s == 0 and i == counts[r][s] // 2:
                         time.sleep(case['supplier_stall'])
@@ -80,7 +89,8 @@ def run_threads(case):
                     time.sleep(case['supplier_stall'])
                 q.put_end()
                 bar.wait(BOUND)
-                bar.wait(BOUND)  # renew happens between these two
+                if not overlap:
+                    bar.wait(BOUND)  # renew happens between these two
         except threading.BrokenBarrierError:
             pass
         except Exception as e:  # noqa: BLE001
@@ -90,14 +100,21 @@ def run_threads(case):
     def consumer(c):
         try:
             for r in range(rounds):
-                bar.wait(BOUND)
+                if overlap and r > 0:
+                    # overlap mode: the other consumers begin the next round's iteration at once, while consumer 0 may still be inside
+                    # renew() (they either find the old round still closed -- an empty iteration -- or join the new round)
+                    if c == 0:
+                        bar_top.wait(BOUND)
+                else:
+                    bar.wait(BOUND)
                 for x in q:
                     received[r][c].append(x)
                 bar.wait(BOUND)
                 if c == 0 and r + 1 < rounds:
                     q.renew()
-                    renew_info.append((r, q.qsize()))
-                bar.wait(BOUND)
+                    renew_info.append((r, q.qsize() if not overlap else 0))
+                if not overlap:
+                    bar.wait(BOUND)
         except threading.BrokenBarrierError:
             pass
         except Exception as e:  # noqa: BLE001
@@ -107,6 +124,9 @@ def run_threads(case):
     fz = schedfuzz.SchedFuzz(seed=case['seed'], p=case['p'], delays=(0, 0, 0.0001, 0.0005, 0.002))
     fz.add(MQ.IterableQueue.__next__, MQ.IterableQueue.put_end, MQ.IterableQueue.renew)
     fz.add_site(MQ.IterableQueue.__next__, 'self._used_lids.put(z)', prob=0.5, delay=0.002, where='after', name='between-used-put-and-full-test')
+    if overlap:
+        fz.add_site(MQ.IterableQueue.renew, 'for _ in range(self._num_suppliers):', prob=0.7, delay=0.003, where='before', name='renew-between-its-two-halves')
+        fz.add_site(MQ.IterableQueue.renew, 'self._spare_lids.put(z)', prob=0.5, delay=0.002, where='after', name='renew-after-a-lid-was-handed-back')
     if case.get('with_stop_event'):
         fz.add(MQ.ResponsiveQueue._get_put)
         fz.add_handler_sites(MQ.ResponsiveQueue._get_put, MQ.IterableQueue.__next__, prob=0.6, delay=0.015)
